@@ -1,27 +1,25 @@
-"""C08 - inbound application messages reach the application in order, exactly once.
-Family "seq" of Session.tla; monitors C08_* of Monitors.tla on traces of the real engine."""
+"""C08 - application traffic flows only inside a completed logon.
+Family "life" of Session.tla; monitors C08_*."""
 from lib import common, sessfam
 
 LEVEL = 'model_checking'
 PID = 'C08'
 FAMILY = 'life'
 PROPS = ['P_C08']
+BASE = [{'role': 'acc', 'bs': 42}, {'role': 'init', 'bs': 42}]
+ALT = [{'role': 'acc', 'bs': 44, 'resetOnDisconnect': True}, {'role': 'init', 'bs': 40}, {'role': 'acc', 'bs': 50}, {'role': 'init', 'bs': 44, 'resetOnLogout': True}]
 
 
 def configs(ctx):
-    quick = ctx.tier == 'quick'
-    base = [dict(role='acc', bs=42, chunk=0), dict(role='acc', bs=42, chunk=2)]
-    alt = [dict(role='init', bs=44, chunk=0), dict(role='init', bs=40, chunk=2), dict(role='acc', bs=41, chunk=1),
-           dict(role='init', bs=50, chunk=0), dict(role='acc', bs=44, chunk=3), dict(role='init', bs=42, chunk=1)]
-    if quick:
-        return base + [alt[ctx.seed % len(alt)]]
-    return base + alt
+    if ctx.tier == 'quick':
+        return BASE + [ALT[(ctx.seed + i) % len(ALT)] for i in range(min(2, len(ALT)))]
+    return BASE + ALT
 
 
 def run(ctx):
-    sessfam.standard_run(ctx, PID, FAMILY, PROPS, configs(ctx),
-                         quick_budget=15000, thorough_budget=250000,
-                         statement='FromApp order / at-expected / advance-by-one / monotone counter')
+    sessfam.standard_run(ctx, PID, FAMILY, PROPS, configs(ctx), quick_budget=15000, thorough_budget=250000,
+                         quick_bounds={'maxIn': 3, 'maxOut': 3, 'maxEp': 1}, thorough_bounds={'maxIn': 4, 'maxOut': 4, 'maxEp': 2},
+                         statement='first message Logon/Logout, no application traffic outside the handshake, deliveries inside the notified period, one logout notification, nothing after close')
 
 
 def replay(ctx, path):
